@@ -53,7 +53,8 @@ def gen_state(r, path, suffix, name_prefix, affects_fn=None, layouts=("own", "ow
         return None
 
     o = gen.Opts(layouts=layouts, max_depth=2, max_blocks=max_blocks, max_items=5, decoys=True, prose=True,
-                 eol=eol or r.choice(["\n", "\n", "\n", "\r\n"]), attrs_fn=attrs, multibyte=r.random() < 0.2)
+                 eol=eol or r.choice(["\n", "\n", "\n", "\r\n"]), attrs_fn=attrs, multibyte=r.random() < 0.2,
+                 final_newline=r.random() < 0.75)      # some files end without a line terminator (git: `\ No newline at end of file`)
     g = gen.gen_file(r, lang, o)
     text = g.data
     e = o.eol.encode()
@@ -188,13 +189,29 @@ def apply_edits(r, st, nops, counter, hostile=False, prefer_boundaries=True):
                 keep[i] = False
             inserts.setdefault(cand[0], []).extend(newl() for _ in range(k_new))
             ops.append((kind, cand[0] + 1, (len(cand), k_new)))
+    # an in-line edit of one block's end-tag line (words appended inside the comment, after the tag): the line keeps its identity;
+    # a change of the end-tag line alone says nothing about the block, together with a content change the block is modified as usual
+    modified = {}
+    if st.blocks and r.random() < 0.3:
+        b = r.choice(st.blocks)
+        i = b.e1 - 1
+        if b.e1 == b.e2 and not b.same_comment and 0 <= i < n and keep[i] and not (st.lines[i].rstrip().endswith((b")", b'"'))):
+            counter[0] += 1
+            ts = st.lines[i].rstrip()
+            for closer in (b"*/", b"-->"):
+                if ts.endswith(closer):
+                    modified[i] = ts[:-len(closer)] + (b"rev%d " % counter[0]) + closer
+                    break
+            else:
+                modified[i] = ts + (b" rev%d" % counter[0])
+            ops.append(("end-tag-words", i + 1, 1))
     new_lines, origin = [], []
     for i in range(n + 1):
         for t in inserts.get(i, []):
             new_lines.append(t)
             origin.append(None)
         if i < n and keep[i]:
-            new_lines.append(st.lines[i])
+            new_lines.append(modified.get(i, st.lines[i]))
             origin.append(i)
     return new_lines, origin, ops
 
